@@ -330,6 +330,13 @@ class BaseApprox(Item):
         self.degree = self._normalize_degree(degree)
         super().__init__(**kwargs)
 
+    def _clone_item(self, cls, *args, **kwargs):
+        clone = super()._clone_item(cls, *args, **kwargs)
+        if "degree" not in kwargs:
+            # an implicit degree stays implicit (a~ is not to be printed as a~0.5)
+            clone._implicit_degree = self._implicit_degree
+        return clone
+
     def __repr__(self):
         return "%s(%s, %s)" % (self.__class__.__name__, self.term.__repr__(), self.degree)
 
@@ -382,6 +389,13 @@ class Boost(Item):
         self.force = Decimal(force).normalize() if force is not None else 1
         self.implicit_force = force is None
         super().__init__(**kwargs)
+
+    def _clone_item(self, cls, *args, **kwargs):
+        clone = super()._clone_item(cls, *args, **kwargs)
+        if "force" not in kwargs:
+            # an implicit force stays implicit (a^ is not to be printed as a^1)
+            clone.implicit_force = self.implicit_force
+        return clone
 
     def __repr__(self):
         return "%s(%s, %s)" % (self.__class__.__name__, self.expr.__repr__(), self.force)
